@@ -71,3 +71,23 @@ Example C04_names_example :
   go_valid [GType "Log"; GMethod "Log" "Append"; GFunc "Open"; GConst "MaxLen"] /\
   plain [GType "Log"; GMethod "Log" "Append"; GFunc "Open"; GConst "MaxLen"].
 Proof. exact plain_package_is_covered. Qed.
+
+(* Emitted files as Coq reads them: for packages of functions that call each
+   other (Tr/MiniGoC.v; the list handed to trc_prog is goose's emitted order,
+   and trc_prog = goose's output is checked by Coq's kernel on every run,
+   profile minigoc) acceptance by the model implies the three clauses of the
+   property at once - one value per function, pairwise distinct names, and
+   every callee other than the function itself strictly earlier in the file. *)
+From GV Require Import Lang.GlSyntax Tr.MiniGoC Tr.MiniGoCProofs.
+
+Theorem C04_accepted_packages_once_distinct_callee_first : forall P vs,
+  trc_prog P = Some vs ->
+  length vs = length P /\ NoDup (map cf_name P) /\
+  forall i fn g, nth_error P i = Some fn -> In g (callees_b (cf_body fn)) ->
+    g = cf_name fn \/ exists j gn, (j < i)%nat /\ nth_error P j = Some gn /\ cf_name gn = g.
+Proof. exact accepted_in_dependency_order. Qed.
+Print Assumptions C04_accepted_packages_once_distinct_callee_first.
+
+(* ... and a package whose functions are not in that order is not accepted *)
+Example C04_use_before_definition_rejected : trc_prog [ex_use; ex_gcd; ex_seven] = None.
+Proof. exact rejects_use_before_definition. Qed.
